@@ -209,6 +209,37 @@ harness! {
     }
 }
 
+// the same check cut into six latitude bands of five zones (the quick command has 900 s for build + run; the whole range in
+// one query takes 16 min)
+macro_rules! nl_table_part {
+    ($name:ident, $lo:expr, $hi:expr) => {
+        harness! {
+            #[kani::unwind(60)]
+            #[kani::stub(alloc::fmt::format, crate::stubs::fmt_stub)]
+            fn $name(s) {
+                let e = s.i64();
+                vassume!(e >= $lo * P17 && e <= $hi * P17);
+                let lat = centre(6.0, e, 60);
+                vassume!(!nl_borderline(lat));
+                let msg = report(false, e.rem_euclid(P17) as u32, 65536);
+                let r = rs1090::decode::cpr::airborne_position_with_reference(&msg, lat, 1.0);
+                vcover!(r.is_some());
+                vassert!(r.is_some(), "reference decoding at the cell's own latitude succeeds");
+                if let Some(p) = r {
+                    vassert!(close(p.latitude, lat), "latitude is the cell centre");
+                    vassert!(close(p.longitude * nl_ref(lat) as f64, 180.0), "number of longitude zones equals NL(lat) of the closed formula");
+                }
+            }
+        }
+    };
+}
+nl_table_part!(nl_table_s3, -15, -10);
+nl_table_part!(nl_table_s2, -10, -5);
+nl_table_part!(nl_table_s1, -5, 0);
+nl_table_part!(nl_table_n1, 0, 5);
+nl_table_part!(nl_table_n2, 5, 10);
+nl_table_part!(nl_table_n3, 10, 15);
+
 harness! {
     #[kani::unwind(60)]
     #[kani::stub(alloc::fmt::format, crate::stubs::fmt_stub)]
@@ -246,6 +277,12 @@ harness! {
 
 pub const BASE: &[(&str, fn(&mut crate::src::Tape))] = &[
     (concat!(module_path!(), "::nl_table_vs_formula"), nl_table_vs_formula::replay),
+    (concat!(module_path!(), "::nl_table_s3"), nl_table_s3::replay),
+    (concat!(module_path!(), "::nl_table_s2"), nl_table_s2::replay),
+    (concat!(module_path!(), "::nl_table_s1"), nl_table_s1::replay),
+    (concat!(module_path!(), "::nl_table_n1"), nl_table_n1::replay),
+    (concat!(module_path!(), "::nl_table_n2"), nl_table_n2::replay),
+    (concat!(module_path!(), "::nl_table_n3"), nl_table_n3::replay),
     (concat!(module_path!(), "::same_parity_none"), same_parity_none::replay),
     (concat!(module_path!(), "::range_any_pair"), range_any_pair::replay),
 ];
